@@ -69,8 +69,12 @@ type RCase struct {
 	// the history and from inside every ReassemblyComplete callback of the history's Reassembler (a consumer that
 	// feeds what it gets into the next stage). Objects are independent: the outcome of the history is the one the
 	// model computes for it alone, and the peer delivers exactly its own records.
-	Peer bool  `json:"peer,omitempty"`
-	Ops  []ROp `json:"ops"`
+	Peer bool `json:"peer,omitempty"`
+	// Recycle: the consumer owns what it has been handed. Once a callback has noted what it was given, it clears the
+	// delivered message structs and the slice that held them (a consumer that returns its messages to a free list).
+	// What the Reassembler does afterwards must not depend on memory it has given away.
+	Recycle bool  `json:"recycle,omitempty"`
+	Ops     []ROp `json:"ops"`
 }
 
 // peerR is the second Reassembler of a history with Peer set: every step pushes the first records of two new
@@ -143,11 +147,12 @@ type recStream struct {
 	grps [][]delivered // per op: groups delivered (for monitors)
 	lost []int
 	// re-entrant calls of the operation in progress
-	nest   []ROp
-	nestAt int
-	ncb    int
-	exec   func(ROp)
-	peer   *peerR
+	nest    []ROp
+	nestAt  int
+	ncb     int
+	exec    func(ROp)
+	peer    *peerR
+	recycle bool
 }
 
 type delivered struct {
@@ -179,6 +184,13 @@ func (s *recStream) ReassemblyComplete(msgs []*auparse.AuditMessage) {
 	s.cur = append(s.cur, "g:"+strings.Join(parts, ","))
 	s.grps = append(s.grps, g)
 	s.ncb++
+	if s.recycle {
+		for i, m := range msgs {
+			delete(s.ids, m)
+			*m = auparse.AuditMessage{RecordType: 1320, Sequence: 0xDEAD0000 + uint32(i)}
+			msgs[i] = nil
+		}
+	}
 	if s.peer != nil {
 		s.peer.step()
 	}
@@ -215,7 +227,7 @@ func runReasmImpl(c RCase) (obs []opObs, panicMsg string) {
 			panicMsg = fmt.Sprint(r)
 		}
 	}()
-	st := &recStream{ids: map[*auparse.AuditMessage]int{}}
+	st := &recStream{ids: map[*auparse.AuditMessage]int{}, recycle: c.Recycle}
 	r, err := libaudit.NewReassembler(c.Max, time.Duration(c.TimeoutNs), st)
 	if err != nil {
 		return nil, "constructor: " + err.Error()
@@ -1028,6 +1040,24 @@ func earlyProbe(T, lead time.Duration, trials int) (early int, least time.Durati
 	return
 }
 
+// wideWindow fills a window of max with n events that never complete (timeout 1h) and reports at which event the first
+// delivery before Close happened (0 = none).
+func wideWindow(max, n int) (evictedAt int) {
+	st := &earlyStream{t0: time.Now()}
+	r, err := libaudit.NewReassembler(max, time.Hour, st)
+	if err != nil {
+		return 0
+	}
+	defer r.Close()
+	for i := 0; i < n; i++ {
+		r.PushMessage(&auparse.AuditMessage{RecordType: tSYSCALL, Sequence: uint32(1000 + i)})
+		if len(st.el) > 0 {
+			return i + 1
+		}
+	}
+	return 0
+}
+
 // reasmStampRng, when set, gives every second history time stamps (see ROp.TS) before it is run.
 var reasmStampRng *rand.Rand
 
@@ -1079,6 +1109,10 @@ func runReasmCase(ctx *Ctx, m *common.Model, c RCase, idx int) *common.Violation
 	if reasmStampRng != nil && reasmStampRng.Intn(2) == 0 {
 		c = stampCase(reasmStampRng, c)
 		ctx.Res.Hist("time stamps varied")
+	}
+	if reasmStampRng != nil && reasmStampRng.Intn(3) == 0 {
+		c.Recycle = true
+		ctx.Res.Hist("consumer recycles what it was handed")
 	}
 	if reasmStampRng != nil && !c.Real && len(c.Ops) < 2000 && reasmStampRng.Intn(3) == 0 {
 		c.Peer = true
@@ -1219,6 +1253,18 @@ func reasmFamily(ctx *Ctx) error {
 				Stress StressCfg `json:"stress"`
 			} `json:"input"`
 		}
+		var rw struct {
+			Input struct {
+				Kind   string `json:"kind"`
+				Max    int    `json:"max_in_flight"`
+				Events int    `json:"events"`
+			} `json:"input"`
+		}
+		if json.Unmarshal(b, &rw) == nil && rw.Input.Kind == "wide-window" {
+			at := wideWindow(rw.Input.Max, rw.Input.Events)
+			fmt.Printf("maxInFlight %d, %d events pushed, none complete, timeout 1h: first delivery before Close when event number %d arrived (0 = none)\n", rw.Input.Max, rw.Input.Events, at)
+			return nil
+		}
 		var rpe struct {
 			Input struct {
 				Kind    string `json:"kind"`
@@ -1334,16 +1380,8 @@ func reasmFamily(ctx *Ctx) error {
 		// elapsed, the buffer never holds more than maxInFlight events: nothing may be delivered before Close.
 		in := map[string]interface{}{"kind": "wide-window", "max_in_flight": 200000, "events": 1<<17 + 2}
 		guardEnter(in)
-		st := &earlyStream{t0: time.Now()}
-		r, err := libaudit.NewReassembler(200000, time.Hour, st)
-		if err == nil {
-			for i := 0; i < 1<<17+2 && len(st.el) == 0; i++ {
-				r.PushMessage(&auparse.AuditMessage{RecordType: tSYSCALL, Sequence: uint32(1000 + i)})
-				if len(st.el) > 0 {
-					res.Violate(common.Violation{Kind: "monitor", Input: in, Clause: fmt.Sprintf("C10: an event was evicted without cause when event number %d arrived: incomplete, timeout 1h not elapsed, %d events buffered <= maxInFlight 200000", i+1, i+1)})
-				}
-			}
-			r.Close()
+		if at := wideWindow(200000, 1<<17+2); at > 0 {
+			res.Violate(common.Violation{Kind: "monitor", Input: in, Clause: fmt.Sprintf("C10: an event was evicted without cause when event number %d arrived: incomplete, timeout 1h not elapsed, %d events buffered <= maxInFlight 200000", at, at)})
 		}
 		guardLeave()
 		res.Hist("wide window")
